@@ -27,7 +27,10 @@ func init() {
 
 // boundaryCoef: the first n digits of a word boundary (possibly divided by a power of ten), +- a few units
 func (g *Gen) boundaryCoef() *big.Int {
-	w := boundaryWords[g.r.Intn(len(boundaryWords))]
+	return g.boundaryCoefOf(boundaryWords[g.r.Intn(len(boundaryWords))])
+}
+
+func (g *Gen) boundaryCoefOf(w *big.Int) *big.Int {
 	s := w.String()
 	n := 1 + g.r.Intn(35)
 	if n > len(s) {
